@@ -8,6 +8,13 @@ Used by `Theorems/C17Sem.lean`.
 namespace Rscel
 namespace SpecCoincide
 
+variable {B : Builtins}
+
+theorem es_member_nil (sp : Span) (p : Prim) (env : Env) :
+    evalSpec B (.member sp p []) env = evalSpecPrim B p env := by
+  rw [evalSpec, evalSpecOps]
+  intros; simp_all
+
 /-! ### `identsOf` on the constructors of the fragment -/
 
 theorem ids_member_nil (sp : Span) (p : Prim) : identsOf (.member sp p []) = identsOfPrim p := by
@@ -39,7 +46,7 @@ theorem mem_identsOfCases_cmp {n : Str} {sp sp1 sp2 : Span} {op : CmpOp} {e b : 
 /-! ### congruence of the list / case walkers -/
 
 theorem evalSpecList_congr {env₁ env₂ : Env} :
-    ∀ (es : List Ast), (∀ e ∈ es, evalSpec e env₁ = evalSpec e env₂) → evalSpecList es env₁ = evalSpecList es env₂
+    ∀ (es : List Ast), (∀ e ∈ es, evalSpec B e env₁ = evalSpec B e env₂) → evalSpecList B es env₁ = evalSpecList B es env₂
   | [], _ => by simp [evalSpecList]
   | e :: es, h => by
     simp only [evalSpecList]
@@ -47,45 +54,47 @@ theorem evalSpecList_congr {env₁ env₂ : Env} :
 
 theorem evalSpecCases_congr {env₁ env₂ : Env} (vs : Val) :
     ∀ (cases : List MCase),
-      (∀ sp p b, MCase.mk sp p b ∈ cases → evalSpec b env₁ = evalSpec b env₂) →
-      (∀ sp sp1 sp2 op e b, MCase.mk sp (.cmp sp1 sp2 op e) b ∈ cases → evalSpec e env₁ = evalSpec e env₂) →
-      evalSpecCases cases vs env₁ = evalSpecCases cases vs env₂
-  | [], _, _ => by simp [evalSpecCases]
-  | .mk sp p b :: rest, harm, hcmp => by
-    have hp : evalSpecPat p vs env₁ = evalSpecPat p vs env₂ := by
+      (∀ sp p b, MCase.mk sp p b ∈ cases → evalSpec B b env₁ = evalSpec B b env₂) →
+      (∀ sp sp1 sp2 op e b, MCase.mk sp (.cmp sp1 sp2 op e) b ∈ cases → evalSpec B e env₁ = evalSpec B e env₂) →
+      (∀ sp sp1 t name b, MCase.mk sp (.type sp1 t name) b ∉ cases) →
+      evalSpecCases B cases vs env₁ = evalSpecCases B cases vs env₂
+  | [], _, _, _ => by simp [evalSpecCases]
+  | .mk sp p b :: rest, harm, hcmp, hnt => by
+    have hp : evalSpecPat B p vs env₁ = evalSpecPat B p vs env₂ := by
       cases p with
       | any _ => simp [evalSpecPat]
-      | type _ _ _ => simp [evalSpecPat]
+      | type sp1 t name => exact absurd (List.mem_cons_self ..) (hnt sp sp1 t name b)
       | cmp sp1 sp2 op e => simp only [evalSpecPat]; rw [hcmp sp sp1 sp2 op e b (List.mem_cons_self ..)]
     have hb := harm sp p b (List.mem_cons_self ..)
     have hr := evalSpecCases_congr vs rest
       (fun sp' p' b' h => harm sp' p' b' (List.mem_cons_of_mem _ h))
       (fun sp' sp1 sp2 op e b' h => hcmp sp' sp1 sp2 op e b' (List.mem_cons_of_mem _ h))
+      (fun sp' sp1 t name b' h => hnt sp' sp1 t name b' (List.mem_cons_of_mem _ h))
     simp only [evalSpecCases, hp, hb, hr]
 
 /-- **Coincidence.**  Two environments in which every identifier occurring in `e` resolves alike give `e`
     the same value. -/
 theorem coincide {m : Bool} {e : Ast} (h : Frag m e) {env₁ env₂ : Env} :
-    (∀ n ∈ identsOf e, resolveIdent env₁ n = resolveIdent env₂ n) → evalSpec e env₁ = evalSpec e env₂ := by
+    (∀ n ∈ identsOf e, resolveIdent env₁ n = resolveIdent env₂ n) → evalSpec B e env₁ = evalSpec B e env₂ := by
   induction h with
-  | null sp sp' => intro _; simp [evalSpec, evalSpecPrim]
-  | int sp sp' i => intro _; simp [evalSpec, evalSpecPrim]
-  | uint sp sp' n => intro _; simp [evalSpec, evalSpecPrim]
-  | float sp sp' b => intro _; simp [evalSpec, evalSpecPrim]
-  | str sp sp' s => intro _; simp [evalSpec, evalSpecPrim]
-  | bytes sp sp' b => intro _; simp [evalSpec, evalSpecPrim]
-  | bool sp sp' b => intro _; simp [evalSpec, evalSpecPrim]
+  | null sp sp' => intro _; simp [es_member_nil, evalSpecPrim]
+  | int sp sp' i => intro _; simp [es_member_nil, evalSpecPrim]
+  | uint sp sp' n => intro _; simp [es_member_nil, evalSpecPrim]
+  | float sp sp' b => intro _; simp [es_member_nil, evalSpecPrim]
+  | str sp sp' s => intro _; simp [es_member_nil, evalSpecPrim]
+  | bytes sp sp' b => intro _; simp [es_member_nil, evalSpecPrim]
+  | bool sp sp' b => intro _; simp [es_member_nil, evalSpecPrim]
   | ident sp sp' n =>
     intro hag
-    simp only [evalSpec, evalSpecPrim]
+    simp only [es_member_nil, evalSpecPrim]
     exact hag n (by simp [identsOf, identsOfPrim])
   | parens sp sp' e _ ih =>
     intro hag
-    simp only [evalSpec, evalSpecPrim]
+    simp only [es_member_nil, evalSpecPrim]
     exact ih (fun n hn => hag n (by simpa [identsOf, identsOfPrim, identsOfOps] using hn))
   | list sp sp' es _ ih =>
     intro hag
-    simp only [evalSpec, evalSpecPrim]
+    simp only [es_member_nil, evalSpecPrim]
     rw [evalSpecList_congr es (fun e he => ih e he (fun n hn => hag n (by
       rw [ids_member_nil]; simp only [identsOfPrim]; exact mem_identsOfList.mpr ⟨e, he, hn⟩)))]
   | notRun sp ops x _ ih =>
@@ -107,7 +116,7 @@ theorem coincide {m : Bool} {e : Ast} (h : Frag m e) {env₁ env₂ : Env} :
     have ht := iht (fun n hn => hag n (by simp only [identsOf, List.mem_append]; exact Or.inl (Or.inr hn)))
     have hf := ihf (fun n hn => hag n (by simp only [identsOf, List.mem_append]; exact Or.inr hn))
     simp only [evalSpec, hc, ht, hf]
-  | match_ sp s cases _ _ _ _ _ ihs iharm ihcmp =>
+  | match_ sp s cases _ _ _ _ hnt ihs iharm ihcmp =>
     intro hag
     have hs := ihs (fun n hn => hag n (by simp only [identsOf, List.mem_append]; exact Or.inl hn))
     simp only [evalSpec, hs]
@@ -116,6 +125,7 @@ theorem coincide {m : Bool} {e : Ast} (h : Frag m e) {env₁ env₂ : Env} :
         simp only [identsOf, List.mem_append]; exact Or.inr (mem_identsOfCases_arm hm hn))))
       (fun sp' sp1 sp2 op e b hm => ihcmp sp' sp1 sp2 op e b hm (fun n hn => hag n (by
         simp only [identsOf, List.mem_append]; exact Or.inr (mem_identsOfCases_cmp hm hn))))
+      hnt
 
 end SpecCoincide
 end Rscel
